@@ -433,7 +433,7 @@ def main(tier, seed, replay=None):
         if s not in seen:
             seen.add(s)
             cases.append(c)
-    cases = par.sample(cases, 4 if q else 1, seed)
+    cases = par.sample(cases, 6 if q else 1, seed)
     root = tlc.scratch_dir("vp_c08_")
     try:
         for case, viols in par.pmap(_case, [(c, root) for c in cases],
